@@ -394,7 +394,7 @@ def rule_template_cache(run):
     run.ob(g2 == "U[3:-2]", "_TemplateMeta.get_instance", file=tm.rel, line=f.node.lineno, detail="get-second", expected="U[3:-2]", found=str(g2))
     # the specialising __class_getitem__ passes its own class as the first key component
     cg = tm.func("class_getitem_specialize")
-    ok = P.has(cg.node, "meta.instance_exists(cls, template_arg)") and P.has(cg.node, "meta.get_instance(cls, template_arg)")
+    ok = P.ahas(cg.node, "meta.instance_exists(cls, template_arg)") and P.ahas(cg.node, "meta.get_instance(cls, template_arg)")
     adds = [c for c in ast.walk(cg.node) if isinstance(c, ast.Call) and isinstance(c.func, ast.Attribute) and c.func.attr == "add_instance"]
     ok = ok and len(adds) >= 1 and all(dotted(c.args[0]) == "cls" for c in adds)
     run.ob(ok, "class_getitem_specialize", file=tm.rel, line=cg.node.lineno, detail="keyed-by-class", expected="instance_exists / get_instance / add_instance are called with (cls, template_arg)", found="ok" if ok else "changed")
